@@ -856,11 +856,15 @@ func main() {
 			nops, space, every := 80+r.Intn(120), 12+r.Intn(40), 7
 			if k%8 >= 4 { // long histories: deep trees for small degrees, a split root for degree 64
 				nops, space, every = 1500, 400, 250
-				if *tier == "thorough" {
-					nops, space, every = 20000, 3000, 2500
-				}
 			}
 			emitBT(genBT(r, d, nops, space, every))
+		}
+		if *tier == "thorough" { // very long histories (DESIGN.md: up to 10^5 operations)
+			for k, d := range []int{2, 3, 4, 64, 2, 3, 4, 64} {
+				emitBT(genBT(master.Fork(uint64(2000000+k)), d, 20000, 3000, 2500))
+			}
+			emitBT(genBT(master.Fork(2000100), 3, 100000, 4000, 20000))
+			emitBT(genBT(master.Fork(2000101), 64, 100000, 4000, 20000))
 		}
 		small, large := c07x.Small(), c07x.Large()
 		for k := 0; k < *n; k++ {
